@@ -21,12 +21,12 @@ def run(ctx):
     ctx.do(H.rule_d1)
     ctx.do(H.rule_i1)
     ctx.do(C.rule_chart_slot)
-    ctx.do(n1, ["geometry_tools/hyperbolic.py", "geometry_tools/projective.py"])
-    ctx.do(CA.rule_c2, "ProjectiveObject")
+    ctx.do(n1, ["geometry_tools/hyperbolic.py", "geometry_tools/projective.py"], scope=ctx.scope(ENTRIES))
+    ctx.do(CA.rule_c2, "ProjectiveObject", scope=ctx.scope(ENTRIES))
     ctx.do(H.rule_h2)
-    ctx.do(H.rule_h1)
-    ctx.do(SH.rule_sh2)
-    ctx.do(SI.rule_pt1, [SI.HYP])
+    ctx.do(H.rule_h1, scope=ctx.scope(ENTRIES))
+    ctx.do(SH.rule_sh2, only={"kleinian_to_poincare", "poincare_to_kleinian", "poincare_to_halfspace", "halfspace_to_poincare", "hyperboloid_coords", "apply_bilinear", "normsq", "normalize"})
+    ctx.do(SI.rule_pt1, [SI.HYP], scope=ctx.scope(ENTRIES))
     ctx.do(u1, ENTRIES, min_functions=15)
     ctx.r.assume("round-trip equality, agreement of the closed-form metrics, "
                  "symmetry and the triangle inequality are numerical and not "
